@@ -7,28 +7,30 @@
 set -u
 P=$1; K=$2; SUITE=${3:-}
 HERE=$(cd "$(dirname "$0")/.." && pwd)
-SRC=/tmp/seed/out/$P/$K
-WT=/tmp/seed/$P
-[ -f "$SRC/patch.diff" ] || { echo "CONFIRM $P-$K: no patch.diff"; exit 2; }
+BASE=${SEED_BASE:-/tmp/seed}
+PFX=${SEED_PREFIX:-}
+SRC=$BASE/out/$P/$K
+WT=$BASE/$P
+[ -f "$SRC/patch.diff" ] || { echo "CONFIRM $PFX$P-$K: no patch.diff"; exit 2; }
 git -C "$WT" checkout -q -- . && git -C "$WT" clean -fdq
 copy_to=$(python3 -c "import json,sys;print(json.load(open('$SRC/meta.json'))['demo']['copy_to'])")
 run_cmd=$(python3 -c "import json,sys;print(json.load(open('$SRC/meta.json'))['demo']['run'])")
 demo=demo_test.go; [ -f "$SRC/$demo" ] || demo=$(ls "$SRC" | grep -v "patch.diff\|meta.json" | head -1)
 run_cmd=${run_cmd%% (*}
 export GOFLAGS=-mod=mod GOPROXY=off
-rundemo() { (cd "$WT" && cp "$SRC/$demo" "$copy_to" && timeout 600 bash -c "$run_cmd" > /tmp/seed/out/$P/$K/.demo.$1.log 2>&1; echo $?; rm -f "$copy_to"); }
+rundemo() { (cd "$WT" && cp "$SRC/$demo" "$copy_to" && timeout 600 bash -c "$run_cmd" > $SRC/.demo.$1.log 2>&1; echo $?; rm -f "$copy_to"); }
 without=$(rundemo without)
-if ! git -C "$WT" apply "$SRC/patch.diff"; then echo "CONFIRM $P-$K: patch does not apply"; exit 2; fi
-if ! (cd "$WT" && go build ./... >/dev/null 2>&1); then echo "CONFIRM $P-$K: does not build"; git -C "$WT" checkout -q -- .; exit 2; fi
+if ! git -C "$WT" apply "$SRC/patch.diff"; then echo "CONFIRM $PFX$P-$K: patch does not apply"; exit 2; fi
+if ! (cd "$WT" && go build ./... >/dev/null 2>&1); then echo "CONFIRM $PFX$P-$K: does not build"; git -C "$WT" checkout -q -- .; exit 2; fi
 with=$(rundemo with)
 suite="not-run"
 if [ "$SUITE" = "--suite" ]; then
-  if (cd "$WT" && go test -vet=off -count=1 ./... > /tmp/seed/out/$P/$K/.suite.log 2>&1); then suite=pass; else suite=FAIL; fi
+  if (cd "$WT" && go test -vet=off -count=1 ./... > $SRC/.suite.log 2>&1); then suite=pass; else suite=FAIL; fi
 fi
 git -C "$WT" checkout -q -- . && git -C "$WT" clean -fdq
 fired=$(bash "$HERE/scripts/seedcheck.sh" "$SRC/patch.diff" 2>&1)
-D="$HERE/seeded/$P-$K"
+D="$HERE/seeded/$PFX$P-$K"
 mkdir -p "$D"
 cp "$SRC/patch.diff" "$SRC/meta.json" "$D/"; cp "$SRC/$demo" "$D/$demo"
 echo "$fired" > "$D/checks.txt"
-echo "CONFIRM $P-$K: demo_without_rc=$without demo_with_rc=$with suite=$suite | $(echo "$fired" | tail -1)"
+echo "CONFIRM $PFX$P-$K: demo_without_rc=$without demo_with_rc=$with suite=$suite | $(echo "$fired" | tail -1)"
